@@ -359,6 +359,35 @@ def run(ctx: Ctx):
         except Und as e_:
             col.undecided(f"{W('continue_training')}: outside the interpreted fragment ({e_})")
 
+    # ---------------- S7 a restart keeps the learning rate of the loaded optimizer state -----------------------------
+    # load_model_and_optimizer_for_epoch may set the optimizer's rate from the configured initial rate only for epoch 0 (nothing to
+    # load). On every other path the rate is whatever the saved optimizer state holds - the reductions made so far.
+    ld = pkg.func(f"{MOD}::{CLS}.load_model_and_optimizer_for_epoch")
+    pml = parent_map(ld.node)
+    from sa.inteval import NotEvaluable as _NEl, int_eval as _iel
+    init_writes = []
+    for n in own_nodes(ld.node):
+        if isinstance(n, (ast.Assign, ast.AugAssign)):
+            tg = n.targets[0] if isinstance(n, ast.Assign) else n.target
+            if isinstance(tg, ast.Subscript) and isinstance(tg.slice, ast.Constant) and tg.slice.value == "lr" and "learning_rate" in u(n.value):
+                init_writes.append(n)
+    col.floor("initial_rate_writes", len(init_writes), 1)
+    late = []
+    for n in init_writes:
+        reach = True
+        for t, pol in guards_of(pml, n):
+            try:
+                if bool(_iel(t, {"epoch": 3})) != pol:
+                    reach = False
+            except _NEl:
+                pass
+        if reach:
+            late.append(n)
+    col.ob("G10", "S7", f"{W('load_model_and_optimizer_for_epoch')}::initial-rate-only-for-epoch-0", not late,
+           (f"`{u(late[0])[:80]}` is also reached when a later epoch's state is loaded: after a restart the optimizer's rate is reset to the "
+            f"initial one although the history (and an uninterrupted run) has already reduced it") if late else "", rel,
+           late[0].lineno if late else ld.line, sample=len(init_writes))
+
     # ---------------- S6 lr write-through ----------------------------------------------
     _s6(ctx, upd, rd, pm, rowvar, rel, W("update_for_epoch"))
     # a restarted controller reads the history back: the header must be there whatever state the file was in
